@@ -2,7 +2,7 @@ PROP = dict(
     gen=["connlocks"],
     race=True,
     proof_files=["Properties/C06.v", "Proofs/ConnC06.v"],
-    model_files=["Model/LockProto.v"],
+    model_files=["Model/LockTable.v"],
     trusted=["go/ast extraction of lock and map actions (harness/gen_connlocks.go)", "the Go race detector"],
     assumptions=["context, channels, net.Conn and rand.Int31 are safe for concurrent use as documented", "absence of race reports on finitely many executions is evidence, not proof"],
 )
